@@ -9,6 +9,7 @@ mutual
 def Unpacked (cs : CS) (env : List W) : Ty → PlaceId → V → Prop
   | .tup ts, p, v => cs.find p = none ∧ ∃ vs, v = .tup vs ∧ UnpackedL cs env ts p 0 vs
   | .q, p, v => ∃ w, cs.find p = some w ∧ env[w]? = some (.val v)
+  | .c, p, v => ∃ w, cs.find p = some w ∧ env[w]? = some (.val v)
   | .arr _, p, v => ∃ w, cs.find p = some w ∧ env[w]? = some (.val v)
 def UnpackedL (cs : CS) (env : List W) : List Ty → PlaceId → Nat → List V → Prop
   | [], _, _, [] => True
@@ -22,6 +23,7 @@ mutual
 def Shape : Ty → V → Prop
   | .tup ts, v => ∃ vs, v = .tup vs ∧ ShapeL ts vs
   | .q, _ => True
+  | .c, _ => True
   | .arr _, _ => True
 def ShapeL : List Ty → List V → Prop
   | [], [] => True
@@ -58,6 +60,10 @@ theorem Unpacked_frame (cs cs' : CS) (env d : List W) :
       UnpackedL_frame cs cs' env d ts p 0 vs
         (fun q k' _ hq => hf q hq.of_snoc) hl⟩
   | .q, p, v, hf, h => by
+    simp only [Unpacked] at h ⊢
+    obtain ⟨w, h1, h2⟩ := h
+    exact ⟨w, by rw [hf p (ProjExt.refl p)]; exact h1, getElem?_append_some' h2⟩
+  | .c, p, v, hf, h => by
     simp only [Unpacked] at h ⊢
     obtain ⟨w, h1, h2⟩ := h
     exact ⟨w, by rw [hf p (ProjExt.refl p)]; exact h1, getElem?_append_some' h2⟩
@@ -173,6 +179,13 @@ theorem dset_spec : ∀ (ty : Ty) (p : PlaceId) (w : Nat) (cs : CS) (env : List 
     · intro q hq
       simp only [dset]
       rw [CS.find_set, if_neg (fun e => hq (by subst e; exact List.prefix_refl _))]
+  | .c, p, w, cs, env, v, hS, hw, _ => by
+    refine ⟨[], by simpa [dset] using Sem_set p w hS, ?_, rfl, ?_⟩
+    · simp only [dset, Unpacked]
+      exact ⟨w, by simp [CS.find_set], by simpa using hw⟩
+    · intro q hq
+      simp only [dset]
+      rw [CS.find_set, if_neg (fun e => hq (by subst e; exact List.prefix_refl _))]
   | .arr _, p, w, cs, env, v, hS, hw, _ => by
     refine ⟨[], by simpa [dset] using Sem_set p w hS, ?_, rfl, ?_⟩
     · simp only [dset, Unpacked]
@@ -231,27 +244,32 @@ theorem valsOf_vals : ∀ (vs : List V), valsOf (vs.map W.val) = some vs
 theorem stepW_pack (vs : List V) : stepW f .pack (vs.map W.val) = .ok [.val (.tup vs)] := by
   simp [stepW, valsOf_vals vs, pure, Except.pure]
 
-theorem popAll_find (p : PlaceId) (l : List Nat) (s : CS) (q : PlaceId) (hq : ¬ p <+: q) :
-    (l.foldl (fun st k => st.pop (p ++ [.proj k])) s).find q = s.find q := by
-  induction l generalizing s with
-  | nil => rfl
-  | cons k l ih =>
-    simp only [List.foldl_cons]
-    rw [ih, CS.find_pop, if_neg]
-    intro e
-    exact hq (e ▸ List.prefix_append p _)
+theorem popLin_find : ∀ (ts : List Ty) (p : PlaceId) (k : Nat) (s : CS) (q : PlaceId), ¬ p <+: q →
+    (popLin ts p k s).find q = s.find q
+  | [], _, _, _, _, _ => rfl
+  | t :: ts, p, k, s, q, hq => by
+    simp only [popLin]
+    rw [popLin_find ts p (k + 1) _ q hq]
+    by_cases ht : t.lin
+    · simp only [ht, ↓reduceIte]
+      rw [CS.find_pop, if_neg]
+      intro e
+      exact hq (e ▸ List.prefix_append p _)
+    · simp [ht]
 
-theorem popAll_same (p : PlaceId) (l : List Nat) (s : CS) :
-    (l.foldl (fun st k => st.pop (p ++ [.proj k])) s).instrs = s.instrs ∧
-    (l.foldl (fun st k => st.pop (p ++ [.proj k])) s).next = s.next ∧
-    (l.foldl (fun st k => st.pop (p ++ [.proj k])) s).bad = s.bad := by
-  induction l generalizing s with
-  | nil => exact ⟨rfl, rfl, rfl⟩
-  | cons k l ih => simp only [List.foldl_cons]; exact ih _
+theorem popLin_same : ∀ (ts : List Ty) (p : PlaceId) (k : Nat) (s : CS),
+    (popLin ts p k s).instrs = s.instrs ∧ (popLin ts p k s).next = s.next ∧
+    (popLin ts p k s).bad = s.bad
+  | [], _, _, _ => ⟨rfl, rfl, rfl⟩
+  | t :: ts, p, k, s => by
+    simp only [popLin]
+    obtain ⟨h1, h2, h3⟩ := popLin_same ts p (k + 1) (if t.lin then s.pop (p ++ [.proj k]) else s)
+    by_cases ht : t.lin <;> simp only [ht, ↓reduceIte, Bool.false_eq_true] at h1 h2 h3 ⊢ <;>
+      exact ⟨h1, h2, h3⟩
 
-theorem Sem_popAll {cs : CS} {env : List W} (p : PlaceId) (l : List Nat)
-    (h : Sem f inputs cs env) : Sem f inputs (l.foldl (fun st k => st.pop (p ++ [.proj k])) cs) env := by
-  obtain ⟨h1, h2, _⟩ := popAll_same p l cs
+theorem Sem_popLin {cs : CS} {env : List W} (ts : List Ty) (p : PlaceId) (k : Nat)
+    (h : Sem f inputs cs env) : Sem f inputs (popLin ts p k cs) env := by
+  obtain ⟨h1, h2, _⟩ := popLin_same ts p k cs
   unfold Sem at h ⊢
   rw [h1, h2]; exact h
 
@@ -275,18 +293,23 @@ theorem dget_spec : ∀ (ty : Ty) (p : PlaceId) (cs : CS) (env : List W) (v : V)
     refine ⟨d1 ++ [.val (.tup vs)], ?_, ?_, ?_, ?_⟩
     · simp only [dget, hnone]
       rw [← List.append_assoc]
-      exact Sem_set _ _ (Sem_popAll f inputs p _ S2)
+      exact Sem_set _ _ (Sem_popLin f inputs ts p 0 S2)
     · simp only [dget, hnone, ho]
       rw [← List.append_assoc]
       exact app_idx0 _ _
     · simp only [dget, hnone]
-      rw [CS.set_bad, (popAll_same p _ _).2.2]; exact b1
+      rw [CS.set_bad, (popLin_same ts p 0 _).2.2]; exact b1
     · intro q hq
       simp only [dget, hnone]
       rw [CS.find_set, if_neg (fun e => hq (by subst e; exact List.prefix_refl _)),
-        popAll_find p _ _ q hq]
+        popLin_find ts p 0 _ q hq]
       exact F1 q (fun k' _ hk' => hq (List.IsPrefix.trans (List.prefix_append p _) hk'))
   | .q, p, cs, env, v, hS, hU => by
+    simp only [Unpacked] at hU
+    obtain ⟨w, h1, h2⟩ := hU
+    exact ⟨[], by simpa [dget_found _ _ _ _ h1] using hS, by simpa [dget_found _ _ _ _ h1] using h2,
+      by simp [dget_found _ _ _ _ h1], fun q _ => by simp [dget_found _ _ _ _ h1]⟩
+  | .c, p, cs, env, v, hS, hU => by
     simp only [Unpacked] at hU
     obtain ⟨w, h1, h2⟩ := hU
     exact ⟨[], by simpa [dget_found _ _ _ _ h1] using hS, by simpa [dget_found _ _ _ _ h1] using h2,
@@ -367,6 +390,7 @@ theorem Unpacked_focus (cs : CS) (env : List W) : ∀ (projs : List Nat) (ty ty'
         obtain ⟨v', hg, hU⟩ := Unpacked_focus cs env r tk ty' (p ++ [.proj k]) vk ht hUk
         exact ⟨v', by simp [getP, hvk, hg], by simpa [List.append_assoc] using hU⟩
     | q => simp [tyProj] at ht
+    | c => simp [tyProj] at ht
     | arr _ => simp [tyProj] at ht
 
 theorem not_prefix_of_snoc_ne {p q : PlaceId} {a b : Nat} (hab : a ≠ b)
@@ -437,6 +461,7 @@ theorem Unpacked_update (cs cs' : CS) (env d : List W) : ∀ (projs : List Nat) 
             (by simpa using hU2)
           exact this
     | q => simp [tyProj] at ht
+    | c => simp [tyProj] at ht
     | arr _ => simp [tyProj] at ht
 
 /-! ### stores that conform to a type (below array boundaries as well) -/
@@ -447,6 +472,7 @@ mutual
 def Conf : Ty → V → Prop
   | .tup ts, v => ∃ vs, v = .tup vs ∧ ConfL ts vs
   | .q, _ => True
+  | .c, _ => True
   | .arr t, v => ∃ cells, v = .arr cells ∧ ∀ c ∈ cells, c.isHole = true ∨ Conf t c
 def ConfL : List Ty → List V → Prop
   | [], [] => True
@@ -463,6 +489,7 @@ theorem Conf_shape : ∀ (ty : Ty) (v : V), Conf ty v → Shape ty v
     simp only [Shape]
     exact ⟨vs, rfl, ConfL_shape ts vs hl⟩
   | .q, _, _ => by simp [Shape]
+  | .c, _, _ => by simp [Shape]
   | .arr _, _, _ => by simp [Shape]
 theorem ConfL_shape : ∀ (ts : List Ty) (vs : List V), ConfL ts vs → ShapeL ts vs
   | [], [], _ => by simp [ShapeL]
@@ -517,6 +544,7 @@ theorem Conf_focus : ∀ (projs : List Nat) (ty ty' : Ty) (v v' : V), tyProj ty 
         simp only [List.map_cons, getP, hvk] at hg
         exact Conf_focus r tk ty' vk v' ht hck hg
     | q => simp [tyProj] at ht
+    | c => simp [tyProj] at ht
     | arr _ => simp [tyProj] at ht
 
 /-- replacing a projection of a conforming value by a conforming value conforms -/
@@ -546,6 +574,7 @@ theorem Conf_update : ∀ (projs : List Nat) (ty ty' : Ty) (v new v2 : V), tyPro
           exact ⟨vs.set k vk2, rfl, ConfL_set ts vs k tk vk2 hl htk
             (Conf_update r tk ty' vk new vk2 ht hck hn hpk)⟩
     | q => simp [tyProj] at ht
+    | c => simp [tyProj] at ht
     | arr _ => simp [tyProj] at ht
 
 theorem Conf_arr_cell (t : Ty) (cells : List V) (i : Nat) (e : V) (h : Conf (.arr t) (.arr cells))
@@ -613,6 +642,7 @@ theorem wtCheck_sound : ∀ (cs : List Chunk) (t : Ty) (tail : List Nat) (pty : 
         simp only [hp] at h
         exact ⟨te, hp, wtCheck_sound cs te tail pty h⟩
       | q => simp [hp] at h
+      | c => simp [hp] at h
       | tup _ => simp [hp] at h
 
 theorem cIdAt_succ : ∀ (cs : List Chunk) (pid : PlaceId) (j0 k : Nat) (c : Chunk), cs[k]? = some c →
